@@ -8,7 +8,7 @@
      tokenize_raw     : string -> pyres (list token)        = _tokenize
      atom_parse       : string -> pyres token               = _atom_parse
      tokenize         : string -> pyres (list token)        = smiles_tokenize
-   Strings are Coq strings; a character is a code point 0..255 (Latin-1), which is what decides str.isnumeric() below.
+   Strings are Coq strings; a character is a code point 0..255 (Latin-1).
    Exceptions are explicit: every place where the Python code indexes / pops / looks up without a guard returns the
    exception Python raises there (IndexError, KeyError, TypeError).
    Shapes that cannot occur (e.g. `token.append` on something that is not a list) return Err OtherError; TokenizeProofs
@@ -120,11 +120,12 @@ Definition tok_step (st : tstate) (s : ascii) : pyres tstate :=
       if truthy (t_pend st) then ISa else Ok (mkT (t_type st) PdTrue (t_toks st))
     else if Ascii.eqb s "@" then
       match t_toks st with
-      | [] => Err IndexError                                    (* tokens.pop(-1) on an empty list *)
-      | (_, p) :: r =>
+      | [] => ISa                                               (* if not tokens or tokens[-1][0] not in (1, 10) *)
+      | (ty, p) :: r =>
+          if negb (zmem ty [1; 10]) then ISa else
           match query_bond p (negb (truthy (t_pend st))) with
           | Ok q => Ok (mkT None PdNone ((12, q) :: r))
-          | Err e => Err e                                      (* QueryBond(<QueryBond>, ...) -> TypeError *)
+          | Err e => Err e
           end
       end
     else ISa
@@ -145,7 +146,7 @@ Definition tok_step (st : tstate) (s : ascii) : pyres tstate :=
     | PdChars l => Ok (mkT (t_type st) (PdChars (l ++ [s])) (t_toks st))
     | _ => Err OtherError
     end
-  else if is_numeric s then
+  else if is_digit s then                                       (* '0' <= s <= '9' *)
     if tt_in st [10; 11] then ISa
     else if tt_is st 2 then ISm
     else if tt_is st 7 then
@@ -182,7 +183,7 @@ Definition tok_step (st : tstate) (s : ascii) : pyres tstate :=
     else if tt_is st 11 then
       match sget not_dict (str1 s) with
       | Some l => Ok (mkT None (t_pend st) ((10, PZs l) :: t_toks st))
-      | None => Err KeyError                                    (* not_dict['~'] *)
+      | None => ISa                                             (* if s not in not_dict: raise IncorrectSmarts   ('!~') *)
       end
     else
       match sget replace_dict (str1 s) with
@@ -251,6 +252,8 @@ Definition tok_finish (st : tstate) : pyres (list token) :=
       | _ => Err OtherError
       end
     else ISm
+  else if tt_is st 11 then ISa                       (* a '!' with no bond symbol after it *)
+  else if tt_is st 12 then ISa                       (* an unfinished ring-bond mark ';' / ';!' *)
   else Ok (rev (flushed st)).
 
 Definition tokenize_raw_with (step : tstate -> ascii -> pyres tstate) (s : string) : pyres (list token) :=
@@ -372,7 +375,7 @@ Fixpoint post_tokens (l : list token) : pyres (list token) :=
              match p with PStr s => Ok (ty, PAtom (simple_atom s)) | _ => Err OtherError end
            else if ty =? 5 then
              match p with PStr s => atom_parse s | _ => Err OtherError end
-           else if ty =? 10 then ISm
+           else if zmem ty [10; 12] then ISm                       (* SMARTS detected *)
            else Ok (ty, p)) with
     | Err e => Err e
     | Ok t => match post_tokens r with Ok r' => Ok (t :: r') | Err e => Err e end
